@@ -245,6 +245,12 @@ func (loader *Loader) ResolveRefsIn(doc *T, location *url.URL) (err error) {
 				return
 			}
 		}
+		for _, name := range componentNames(components.Links) {
+			component := components.Links[name]
+			if err = loader.resolveLinkRef(doc, component, location); err != nil {
+				return
+			}
+		}
 	}
 
 	// Visit all operations
@@ -606,6 +612,41 @@ var (
 	errMUSTSecurityScheme = errors.New("invalid securityScheme: value MUST be an object")
 )
 
+// resolveContentRefs resolves the references a content map can hold: for every media type its
+// schema, its examples and the headers of its encodings.
+func (loader *Loader) resolveContentRefs(doc *T, content Content, documentPath *url.URL) error {
+	for _, name := range componentNames(content) {
+		contentType := content[name]
+		if contentType == nil {
+			continue
+		}
+		for _, name := range componentNames(contentType.Examples) {
+			example := contentType.Examples[name]
+			if err := loader.resolveExampleRef(doc, example, documentPath); err != nil {
+				return err
+			}
+		}
+		if schema := contentType.Schema; schema != nil {
+			if err := loader.resolveSchemaRef(doc, schema, documentPath, []string{}); err != nil {
+				return err
+			}
+		}
+		for _, encName := range componentNames(contentType.Encoding) {
+			encoding := contentType.Encoding[encName]
+			if encoding == nil {
+				continue
+			}
+			for _, headerName := range componentNames(encoding.Headers) {
+				header := encoding.Headers[headerName]
+				if err := loader.resolveHeaderRef(doc, header, documentPath); err != nil {
+					return err
+				}
+			}
+		}
+	}
+	return nil
+}
+
 func (loader *Loader) resolveHeaderRef(doc *T, component *HeaderRef, documentPath *url.URL) (err error) {
 	if component.isEmpty() {
 		return errMUSTHeader
@@ -656,6 +697,15 @@ func (loader *Loader) resolveHeaderRef(doc *T, component *HeaderRef, documentPat
 		if err := loader.resolveSchemaRef(doc, schema, documentPath, []string{}); err != nil {
 			return err
 		}
+	}
+	for _, name := range componentNames(value.Examples) {
+		example := value.Examples[name]
+		if err := loader.resolveExampleRef(doc, example, documentPath); err != nil {
+			return err
+		}
+	}
+	if err := loader.resolveContentRefs(doc, value.Content, documentPath); err != nil {
+		return err
 	}
 	return nil
 }
@@ -709,16 +759,17 @@ func (loader *Loader) resolveParameterRef(doc *T, component *ParameterRef, docum
 	if value.Content != nil && value.Schema != nil {
 		return errors.New("cannot contain both schema and content in a parameter")
 	}
-	for _, name := range componentNames(value.Content) {
-		contentType := value.Content[name]
-		if schema := contentType.Schema; schema != nil {
-			if err := loader.resolveSchemaRef(doc, schema, documentPath, []string{}); err != nil {
-				return err
-			}
-		}
+	if err := loader.resolveContentRefs(doc, value.Content, documentPath); err != nil {
+		return err
 	}
 	if schema := value.Schema; schema != nil {
 		if err := loader.resolveSchemaRef(doc, schema, documentPath, []string{}); err != nil {
+			return err
+		}
+	}
+	for _, name := range componentNames(value.Examples) {
+		example := value.Examples[name]
+		if err := loader.resolveExampleRef(doc, example, documentPath); err != nil {
 			return err
 		}
 	}
@@ -771,25 +822,7 @@ func (loader *Loader) resolveRequestBodyRef(doc *T, component *RequestBodyRef, d
 		return nil
 	}
 
-	for _, name := range componentNames(value.Content) {
-		contentType := value.Content[name]
-		if contentType == nil {
-			continue
-		}
-		for _, name := range componentNames(contentType.Examples) {
-			example := contentType.Examples[name]
-			if err := loader.resolveExampleRef(doc, example, documentPath); err != nil {
-				return err
-			}
-			contentType.Examples[name] = example
-		}
-		if schema := contentType.Schema; schema != nil {
-			if err := loader.resolveSchemaRef(doc, schema, documentPath, []string{}); err != nil {
-				return err
-			}
-		}
-	}
-	return nil
+	return loader.resolveContentRefs(doc, value.Content, documentPath)
 }
 
 func (loader *Loader) resolveResponseRef(doc *T, component *ResponseRef, documentPath *url.URL) (err error) {
@@ -844,24 +877,8 @@ func (loader *Loader) resolveResponseRef(doc *T, component *ResponseRef, documen
 			return err
 		}
 	}
-	for _, name := range componentNames(value.Content) {
-		contentType := value.Content[name]
-		if contentType == nil {
-			continue
-		}
-		for _, name := range componentNames(contentType.Examples) {
-			example := contentType.Examples[name]
-			if err := loader.resolveExampleRef(doc, example, documentPath); err != nil {
-				return err
-			}
-			contentType.Examples[name] = example
-		}
-		if schema := contentType.Schema; schema != nil {
-			if err := loader.resolveSchemaRef(doc, schema, documentPath, []string{}); err != nil {
-				return err
-			}
-			contentType.Schema = schema
-		}
+	if err := loader.resolveContentRefs(doc, value.Content, documentPath); err != nil {
+		return err
 	}
 	for _, name := range componentNames(value.Links) {
 		link := value.Links[name]
